@@ -56,10 +56,11 @@ def cases(tier, seed):
     for i in range(nrand):
         n = rng.randint(2, 10)
         nodes, edges = common.rand_dag(rng, n)
-        style = rng.choice(common.NAME_STYLES + ["falsy"])
+        style = rng.choice(common.NAME_STYLES + ["falsy", "substr"])
         k = rng.randint(0, min(3, n))
         lat = rng.sample(range(n), k) if rng.random() < 0.5 else []
         out.append({"kind": "rand", "n": n, "nodes": nodes, "edges": edges, "style": style, "lat": lat,
+                    "cls": rng.choice(["DAG", "DAG", "BN"]), "route": rng.choice(["add", "add", "ctor", "weights"]),
                     "nameseed": rng.randint(0, 10**9), "qseed": rng.randint(0, 10**9)})
     # edit sessions: ONE DAG object is edited between queries (edge swaps that keep node and edge counts,
     # reversals, additions, removals): answers must follow the current graph, not any earlier one
@@ -71,6 +72,34 @@ def cases(tier, seed):
                     "style": rng.choice(common.NAME_STYLES), "lat": [],
                     "nameseed": rng.randint(0, 10**9), "qseed": rng.randint(0, 10**9),
                     "steps": rng.randint(3, 7)})
+    # BayesianNetwork objects (own get_markov_blanket, add_edge, remove_node, do, copy): blanket, moral graph,
+    # immoralities, ancestral graph, local independencies on EVERY DAG with <= 4 nodes
+    for n in range(1, 5):
+        for edges in common.all_dags(n):
+            out.append({"kind": "exhbn", "n": n, "edges": edges})
+    # object sessions (generalisation classes A, B, C, E, G, J, K, L): ONE DAG / BayesianNetwork object, every
+    # route queried with FIXED observed sets, then an edit through every own / networkx-inherited mutator,
+    # then the same queries again
+    ngs = 90 if tier == "quick" else 1200
+    for i in range(ngs):
+        n = rng.randint(3, 7) if rng.random() < 0.85 else rng.randint(8, 12)
+        nodes, edges = common.rand_dag(rng, n)
+        k = rng.randint(0, min(3, n))
+        out.append({"kind": "gsess", "cls": rng.choice(["DAG", "BN"]), "n": n, "nodes": nodes, "edges": edges,
+                    "style": rng.choice(common.NAME_STYLES + ["falsy", "substr", "substr", "str"]),
+                    "lat": rng.sample(range(n), k) if rng.random() < 0.5 else [],
+                    "route": rng.choice(["add", "ctor", "weights"]),
+                    "nameseed": rng.randint(0, 10**9), "qseed": rng.randint(0, 10**9),
+                    "rounds": rng.randint(3, 6)})
+    # DynamicBayesianNetwork objects (inherit the DAG routes; own active_trail_nodes wrapper, moralize,
+    # get_markov_blanket) and NaiveBayes objects (own active_trail_nodes / local_independencies short cuts)
+    nd = 30 if tier == "quick" else 400
+    for i in range(nd):
+        out.append({"kind": "dbn", "nvars": rng.randint(2, 4), "qseed": rng.randint(0, 10**9),
+                    "rounds": rng.randint(2, 4)})
+    nnb = 15 if tier == "quick" else 150
+    for i in range(nnb):
+        out.append({"kind": "nb", "nfeat": rng.randint(1, 9), "qseed": rng.randint(0, 10**9)})
     return out
 
 
@@ -100,19 +129,79 @@ def names_for(case):
         names = (head + rest)[:n]
         rng.shuffle(names)
         return names
+    if case["style"] == "substr":
+        return substr_names(rng, n)
     return common.node_names(rng, n, case["style"])
 
 
-def build(case):
+SUBSTR_POOL = ["x1", "x10", "x", "x1x", "1", "10", "up", "down", "weight", "None", "x 1", "X1", "latent",
+               "start", "end", "observed", "G", "G2", "x11", "0"]
+
+
+def substr_names(rng, n, extra=0):
+    """non-empty strings, one a substring / prefix of another, some equal to words the code uses"""
+    pool = list(SUBSTR_POOL)
+    rng.shuffle(pool)
+    head = ["x1", "x10"]
+    rest = [p_ for p_ in pool if p_ not in head]
+    names = (head + rest)[:n + extra]
+    while len(names) < n + extra:
+        names.append("x1_%d" % len(names))
+    first = names[:n]
+    rng.shuffle(first)
+    return first + names[n:]
+
+
+def graph_class(cls):
+    if cls == "BN":
+        from pgmpy.models import BayesianNetwork
+        return BayesianNetwork
     from pgmpy.base import DAG
+    return DAG
+
+
+def build(case):
+    """the object under test, built through one of the documented construction routes:
+    add   : add_node(latent=...) per node, then add_edges_from
+    ctor  : Class(ebunch=..., latents=...) and add_nodes_from(latent=[...]) for the isolated nodes
+    weights: add_nodes_from(weights=[...], latent=[...]) and add_edges_from(weights=[...]) (weights 0 / None / x
+             must not matter to any d-separation answer)"""
     names = names_for(case)
     n = case["n"]
     nodes = case.get("nodes", list(range(n)))
-    g = DAG()
     lat = set(case.get("lat", []))
-    for v in nodes:
-        g.add_node(names[v], latent=(v in lat))
-    g.add_edges_from([(names[u], names[v]) for u, v in case["edges"]])
+    Cls = graph_class(case.get("cls", "DAG"))
+    route = case.get("route", "add")
+    ebunch = [(names[u], names[v]) for u, v in case["edges"]]
+    if route == "ctor":
+        latarg = {names[v] for v in lat}
+        snap_l, snap_e = set(latarg), list(ebunch)
+        g = Cls(ebunch=ebunch, latents=latarg)
+        touched = {u for e in case["edges"] for u in e}
+        iso = [v for v in nodes if v not in touched]
+        g.add_nodes_from([names[v] for v in iso], latent=[False] * len(iso))
+        # the caller's arguments are neither changed nor kept: marking one more node latent on the object
+        # must not show in the caller's set (and not in any other graph's latents)
+        if g.latents is latarg or latarg != snap_l or ebunch != snap_e:
+            raise AssertionError("constructor keeps or changes its arguments")
+        if nodes:
+            g.add_node(names[nodes[0]], latent=True)
+            if latarg != snap_l or Cls().latents or Cls(ebunch=[("p", "q")]).latents:
+                raise AssertionError("latents leak between objects / into the caller's set")
+            if nodes[0] not in lat:
+                g.latents.discard(names[nodes[0]])
+    elif route == "weights":
+        wrng = random.Random(case.get("nameseed", 0) + 5)
+        g = Cls()
+        g.add_nodes_from([names[v] for v in nodes], weights=[wrng.choice([0, None, 0.5, 2]) for _ in nodes],
+                         latent=[v in lat for v in nodes])
+        if ebunch:
+            g.add_edges_from(ebunch, weights=[wrng.choice([0, None, 0.25, 3]) for _ in ebunch])
+    else:
+        g = Cls()
+        for v in nodes:
+            g.add_node(names[v], latent=(v in lat))
+        g.add_edges_from(ebunch)
     return g, names, nodes
 
 
@@ -390,13 +479,24 @@ def run_rand(case, drv):
         return bad("impl!=model:unknown-observed-accepted", {})
     except ValueError:
         pass
+    # all routes once more with observed start nodes, duplicates, every argument form, argument purity and
+    # result independence (same machinery as the object sessions, no edit)
+    S = Sess(case.get("cls", "DAG"), g, dict(enumerate(names)), nodes, edges, lat, drv, case["style"])
+    S.fixed = [sorted(rng.sample(range(n), rng.randint(1, min(3, n)))) for _ in range(2)]
+    b = S.q_round(rng, "rand", tags)
+    if b:
+        return b
+    tags.append("cls=" + case.get("cls", "DAG"))
+    tags.append("route=" + case.get("route", "add"))
     return ok(nontrivial=len(edges) > 0,
-              key=common.canon_key(["rand", n, sorted(map(tuple, edges)), sorted(lat), case["style"], case["qseed"]]),
+              key=common.canon_key(["rand", n, sorted(map(tuple, edges)), sorted(lat), case["style"], case["qseed"],
+                                    case.get("cls", "DAG"), case.get("route", "add")]),
               tags=tags)
 
 
 def run_exhlat(case, drv):
     n = case["n"]
+    memo = {}
     for lat in case["lats"]:
         sub = {"kind": "exh", "n": n, "edges": case["edges"], "lat": lat}
         g, names, nodes = build(sub)
@@ -404,6 +504,33 @@ def run_exhlat(case, drv):
         if b:
             b["detail"] = {"lat": lat, "inner": b.get("detail")}
             return b
+        # include_latents in {True, False} for every start x every observed subset (start itself included:
+        # an observed start node has no active trail nodes), answers of the model memoised per DAG
+        for start in range(n):
+            others = list(range(n))
+            for r in range(0, n + 1):
+                for Z in itertools.combinations(others, r):
+                    if r > 2 and n >= 4 and (start + r + len(lat)) % 2:
+                        continue
+                    k_ = (start, Z)
+                    if k_ not in memo:
+                        memo[k_] = model_atn(drv, nodes, case["edges"], start, Z)
+                    incl = bool((start + len(Z) + len(lat)) % 2)
+                    exp = memo[k_] if incl else memo[k_] - set(lat)
+                    got = g.active_trail_nodes(names[start], observed=[names[z] for z in Z], include_latents=incl)
+                    got = {int(x[1:]) for x in got[names[start]]}
+                    if got != exp:
+                        return bad("impl!=model:active_trail_nodes-latents",
+                                   {"lat": lat, "start": start, "Z": list(Z), "include_latents": incl,
+                                    "impl": sorted(got), "model": sorted(exp)})
+                    if Z and start not in Z and Z[0] != start:
+                        d = g.is_dconnected(names[start], names[Z[0]], observed=[names[z] for z in Z[1:]])
+                        k2 = (start, Z[1:])
+                        if k2 not in memo:
+                            memo[k2] = model_atn(drv, nodes, case["edges"], start, Z[1:])
+                        if d != (Z[0] in memo[k2]):
+                            return bad("impl!=model:is_dconnected-latents",
+                                       {"lat": lat, "start": start, "end": Z[0], "Z": list(Z[1:]), "impl": d})
     return ok(nontrivial=True, key=common.canon_key(["exhlat", n, sorted(map(tuple, case["edges"]))]),
               tags=["exhlat n=%d" % n, "latent-sets=%d" % len(case["lats"])])
 
@@ -517,6 +644,1187 @@ def run_session(case, drv):
               key=common.canon_key(["session", n, sorted(map(tuple, case["edges"])), case["qseed"]]), tags=tags)
 
 
+# ====================================================================== object sessions
+class _Junk(object):
+    """a value that is in no graph (used to vandalise returned containers)"""
+    def __repr__(self):
+        return "<junk>"
+
+
+JUNK = _Junk()
+
+
+def _sortable(style):
+    return style in ("str", "int", "tuple", "substr", "exh", "dbn", "nb")
+
+
+def _strnames(names):
+    return all(isinstance(x, str) and x for x in names)
+
+
+def _reach(edges, src, back=False):
+    """descendants (or ancestors with back=True) of the ids in src, src included"""
+    adj = {}
+    for u, v in edges:
+        if back:
+            u, v = v, u
+        adj.setdefault(u, []).append(v)
+    seen, todo = set(src), list(src)
+    while todo:
+        x = todo.pop()
+        for y in adj.get(x, []):
+            if y not in seen:
+                seen.add(y)
+                todo.append(y)
+    return seen
+
+
+class Sess(object):
+    """one pgmpy graph object + the abstract state (ids, edges, latent ids) the model is asked about.
+    Every route of the property is compared with the model ON THE CURRENT STATE."""
+
+    def __init__(self, cls, g, names, nodes, edges, lat, drv, style):
+        self.cls, self.g, self.drv, self.style = cls, g, drv, style
+        self.names = dict(names)              # id -> name
+        self.nodes = list(nodes)
+        self.edges = [tuple(e) for e in edges]
+        self.latset = set(lat)                # as coded: DAG.remove_node leaves the name in .latents
+        self.history = []
+        self.fixed = []
+        self.memo = {}
+        self.idx = {repr(nm): i for i, nm in self.names.items()}
+        self.nope = "__nope__"
+        self.skip_local = False
+
+    # ---- abstract state
+    def nm(self, i):
+        return self.names[i]
+
+    def ident(self, x):
+        return self.idx[repr(x)]
+
+    def known(self, x):
+        return repr(x) in self.idx
+
+    def learn(self, i, name):
+        self.names[i] = name
+        self.idx[repr(name)] = i
+
+    def blanket_check(self, v, blanket, stage):
+        r = self.g.get_markov_blanket(self.nm(v))
+        got = sorted(self.ident(u) for u in r)
+        if got != sorted(blanket) or not isinstance(r, list):
+            return bad("impl!=model:session-markov_blanket", self.where(stage=stage, v=v, impl=got, model=sorted(blanket)))
+        r.append(JUNK)
+        return None
+
+    def lat(self):
+        return sorted(self.latset & set(self.nodes))
+
+    def E(self):
+        return [list(e) for e in self.edges]
+
+    def touch(self):
+        self.memo = {}
+
+    def atn(self, start, Z):
+        k = (start, tuple(sorted(set(Z))))
+        if k not in self.memo:
+            self.memo[k] = set(self.drv.call("c08_atn", [self.nodes, self.E(), start, list(k[1])]))
+        return self.memo[k]
+
+    def where(self, **kw):
+        d = {"cls": self.cls, "style": self.style, "names": {str(i): repr(v) for i, v in self.names.items() if i in self.nodes},
+             "nodes": list(self.nodes), "edges": sorted(self.edges), "lat": self.lat(), "history": self.history}
+        d.update(kw)
+        return d
+
+    def acyclic_with(self, extra):
+        es = self.edges + list(extra)
+        for (u, v) in extra:
+            if u == v:
+                return False
+        for (u, v) in extra:
+            if u in _reach([e for e in es if e != (u, v)], [v]):
+                return False
+        # several extra edges together
+        ids = set(self.nodes) | {x for e in extra for x in e}
+        indeg = {v: 0 for v in ids}
+        adj = {v: [] for v in ids}
+        for u, v in es:
+            adj[u].append(v)
+            indeg[v] += 1
+        stack = [v for v in ids if indeg[v] == 0]
+        seen = 0
+        while stack:
+            u = stack.pop()
+            seen += 1
+            for v in adj[u]:
+                indeg[v] -= 1
+                if indeg[v] == 0:
+                    stack.append(v)
+        return seen == len(ids)
+
+    def check_state(self, stage):
+        g = self.g
+        try:
+            gn = sorted(self.ident(x) for x in g.nodes())
+            ge = sorted((self.ident(a), self.ident(b)) for a, b in g.edges())
+        except KeyError as e:
+            return bad("impl!=model:session-state", self.where(stage=stage, unknown_node=repr(e)))
+        if gn != sorted(self.nodes) or ge != sorted(self.edges):
+            return bad("impl!=model:session-state", self.where(stage=stage, impl_nodes=gn, impl_edges=ge))
+        gl = sorted(self.ident(x) for x in g.latents if self.known(x) and self.ident(x) in self.nodes)
+        if gl != self.lat():
+            return bad("impl!=model:session-latents", self.where(stage=stage, impl_latents=gl))
+        return None
+
+    def model_edit(self, op, ns, es, stage):
+        """the model's edit function applied to the previous state must give the tracked state"""
+        prev_n, prev_e = self._prev
+        mn, me = self.drv.call("c08_edit", [prev_n, [list(e) for e in prev_e], op, list(ns), [list(e) for e in es]])
+        if sorted(mn) != sorted(self.nodes) or sorted(map(tuple, me)) != sorted(self.edges):
+            return bad("model-inconsistent:edit", self.where(stage=stage, op=op, model=[sorted(mn), sorted(map(tuple, me))]))
+        return None
+
+    def begin_edit(self):
+        self._prev = (list(self.nodes), list(self.edges))
+
+    # ---- argument forms
+    def zobj(self, Z, form):
+        zs = [self.nm(z) for z in Z]
+        if form == "list":
+            return zs
+        if form == "tuple":
+            return tuple(zs)
+        if form == "set":
+            return set(zs)
+        if form == "single":
+            return zs[0]
+        if form == "none":
+            return None
+        raise ValueError(form)
+
+    def forms_for(self, Z):
+        f = ["list", "tuple", "set"]
+        if len(Z) == 1 and not isinstance(self.nm(Z[0]), (tuple, list, set)):
+            f.append("single")
+        if not Z:
+            f.append("none")
+        return f
+
+    @staticmethod
+    def snap(o):
+        return (type(o), list(o) if isinstance(o, (list, tuple)) else (set(o) if isinstance(o, set) else o))
+
+    # ---- the routes
+    def q_atn(self, rng, stage, Z, tags):
+        g = self.g
+        lat = set(self.lat())
+        form = rng.choice(self.forms_for(Z))
+        zo = self.zobj(Z, form)
+        before = self.snap(zo)
+        starts = list(self.nodes) if len(self.nodes) <= 6 else rng.sample(self.nodes, 6)
+        for start in starts:
+            incl = rng.random() < 0.5
+            exp = self.atn(start, Z)
+            if not incl:
+                exp = exp - lat
+            r1 = g.active_trail_nodes(self.nm(start), observed=zo, include_latents=incl)
+            if not isinstance(r1, dict) or [self.ident(k_) if self.known(k_) else -1 for k_ in r1] != [start]:
+                return bad("impl!=model:active_trail_nodes-keys", self.where(stage=stage, start=start, impl=repr(r1)))
+            got = {self.ident(x) for x in r1[self.nm(start)]}
+            if got != exp:
+                return bad("impl!=model:session-active_trail_nodes",
+                           self.where(stage=stage, start=start, Z=sorted(Z), form=form, include_latents=incl,
+                                      impl=sorted(got), model=sorted(exp)))
+            if start in Z:
+                tags.append("start-observed")
+            if rng.random() < 0.3:
+                # result independence: vandalise the returned containers, ask again
+                r1[self.nm(start)].add(JUNK)
+                r1[JUNK] = {JUNK}
+                r2 = g.active_trail_nodes(self.nm(start), observed=zo, include_latents=incl)
+                if r2 is r1 or r2[self.nm(start)] is r1[self.nm(start)] or len(r2) != 1 or \
+                        any(not self.known(x) for x in r2[self.nm(start)]) or \
+                        {self.ident(x) for x in r2[self.nm(start)]} != exp:
+                    return bad("result-not-independent:active_trail_nodes",
+                               self.where(stage=stage, start=start, Z=sorted(Z), impl=repr(r2)))
+        if self.snap(zo) != before:
+            return bad("mutated-argument:observed", self.where(stage=stage, Z=sorted(Z), form=form, after=repr(zo)))
+        # a LIST of start variables (duplicates, observed members): each entry = the single-start answer
+        if len(self.nodes) >= 2:
+            k = rng.randint(2, min(4, len(self.nodes)))
+            starts = rng.sample(self.nodes, k)
+            if rng.random() < 0.3:
+                starts.append(starts[0])
+            so = [self.nm(s_) for s_ in starts]
+            sbefore = list(so)
+            incl = rng.random() < 0.5
+            r = g.active_trail_nodes(so, observed=zo, include_latents=incl)
+            if so != sbefore or self.snap(zo) != before:
+                return bad("mutated-argument:variables", self.where(stage=stage, starts=starts))
+            if any(not self.known(k_) for k_ in r) or sorted(self.ident(k_) for k_ in r) != sorted(set(starts)):
+                return bad("impl!=model:active_trail_nodes-multi-keys", self.where(stage=stage, starts=starts, impl=repr(r)))
+            for s_ in set(starts):
+                exp = self.atn(s_, Z)
+                if not incl:
+                    exp = exp - lat
+                have = {self.ident(x) for x in r[self.nm(s_)]}
+                if have != exp:
+                    return bad("impl!=model:session-active_trail_nodes-multi-start",
+                               self.where(stage=stage, starts=starts, start=s_, Z=sorted(Z), include_latents=incl,
+                                          impl=sorted(have), model=sorted(exp)))
+            vals = list(r.values())
+            if any(a is b_ for i_, a in enumerate(vals) for b_ in vals[i_ + 1:]):
+                return bad("result-not-independent:active_trail_nodes-shared-sets", self.where(stage=stage, starts=starts))
+        # is_dconnected (start or end may be observed: answer False)
+        for _ in range(4):
+            if len(self.nodes) < 2:
+                break
+            a, b_ = rng.sample(self.nodes, 2)
+            zo2 = self.zobj(Z, rng.choice(self.forms_for(Z)))
+            d = g.is_dconnected(self.nm(a), self.nm(b_), observed=zo2)
+            if d is not (b_ in self.atn(a, Z)):
+                return bad("impl!=model:session-is_dconnected",
+                           self.where(stage=stage, start=a, end=b_, Z=sorted(Z), impl=repr(d), model=b_ in self.atn(a, Z)))
+        return None
+
+    def q_rejected(self, rng, stage, tags):
+        """rejected calls: a LATER invalid argument; nothing may stick to the object"""
+        import networkx as nx
+        g = self.g
+        v = rng.choice(self.nodes)
+        nope = self.nope
+        for what, call in (("observed", lambda: g.active_trail_nodes(self.nm(v), observed=[self.nm(rng.choice(self.nodes)), nope])),
+                           ("start", lambda: g.active_trail_nodes([self.nm(v), nope])),
+                           ("ancestral", lambda: g.get_ancestral_graph([self.nm(v), nope])),
+                           ("is_dconnected", lambda: g.is_dconnected(self.nm(v), self.nm(v), observed=[nope]))):
+            try:
+                call()
+            except (ValueError, nx.NetworkXError, KeyError):
+                tags.append("rejected=" + what)
+                continue
+            return bad("impl!=model:unknown-node-accepted", self.where(stage=stage, what=what))
+        return None
+
+    def q_anc(self, rng, stage, tags):
+        g = self.g
+        for _ in range(3):
+            ns = rng.sample(self.nodes, rng.randint(0, min(4, len(self.nodes))))
+            forms = ["list", "tuple"] + (["single"] if len(ns) == 1 and not isinstance(self.nm(ns[0]), (tuple, list, set)) else [])
+            form = rng.choice(forms)
+            no = self.nm(ns[0]) if form == "single" else self.zobj(ns, form)
+            before = self.snap(no)
+            v = rng.choice(self.nodes)
+            blanket, moral, agn, age, ndp, anc = self.drv.call("c08_misc", [self.nodes, self.E(), v, ns])
+            a1 = g._get_ancestors_of(no)
+            ganc = sorted(self.ident(u) for u in a1)
+            if ganc != sorted(anc):
+                return bad("impl!=model:session-ancestors", self.where(stage=stage, ns=ns, form=form, impl=ganc, model=sorted(anc)))
+            a1.add(JUNK)
+            ag = g.get_ancestral_graph(no)
+            gn = sorted(self.ident(u) for u in ag.nodes())
+            ge = sorted((self.ident(a), self.ident(b_)) for a, b_ in ag.edges())
+            if gn != sorted(agn) or ge != sorted(map(tuple, age)):
+                return bad("impl!=model:session-ancestral_graph",
+                           self.where(stage=stage, ns=ns, form=form, impl=[gn, ge], model=[sorted(agn), sorted(map(tuple, age))]))
+            if self.snap(no) != before:
+                return bad("mutated-argument:nodes", self.where(stage=stage, ns=ns, form=form))
+            tags.append("ancestral-as=" + form)
+        return None
+
+    def q_misc(self, rng, stage, tags):
+        g = self.g
+        vs = list(self.nodes) if len(self.nodes) <= 7 else rng.sample(self.nodes, 7)
+        moral = None
+        for v in vs:
+            blanket, moral, _, _, ndp, _ = self.drv.call("c08_misc", [self.nodes, self.E(), v, [v]])
+            b = self.blanket_check(v, blanket, stage)
+            if b:
+                return b
+            if _strnames([self.nm(i) for i in self.nodes]) and not self.skip_local:
+                li = g.local_independencies(self.nm(v)).get_assertions()
+                pa = sorted(u for (u, w) in self.edges if w == v)
+                exp = [] if not ndp else [([v], sorted(ndp), pa)]
+                have = [([self.ident(u) for u in a.event1], sorted(self.ident(u) for u in a.event2),
+                         sorted(self.ident(u) for u in a.event3)) for a in li]
+                if have != exp:
+                    return bad("impl!=model:session-local_independencies", self.where(stage=stage, v=v, impl=have, model=exp))
+        if moral is None:
+            moral = self.drv.call("c08_misc", [self.nodes, self.E(), self.nodes[0], []])[1]
+        mg = g.moralize()
+        gm = sorted({tuple(sorted((self.ident(a), self.ident(b_)))) for a, b_ in mg.edges()})
+        mm = sorted({tuple(sorted(e)) for e in moral})
+        if gm != mm or sorted(self.ident(u) for u in mg.nodes()) != sorted(self.nodes):
+            return bad("impl!=model:session-moralize", self.where(stage=stage, impl=gm, model=mm))
+        mg.add_edge(JUNK, self.nm(self.nodes[0]))
+        if _sortable(self.style):
+            r = g.get_immoralities()
+            gi = sorted({tuple(sorted((self.ident(a), self.ident(b_)))) for a, b_ in r})
+            mi = sorted({tuple(sorted(e)) for e in self.drv.call("c08_immor", [self.nodes, self.E()])})
+            if gi != mi or not isinstance(r, set):
+                return bad("impl!=model:session-immoralities", self.where(stage=stage, impl=gi, model=mi))
+            for a, b_ in r:
+                if not (a, b_) == tuple(sorted((a, b_))):
+                    return bad("impl!=model:immoralities-pair-not-sorted", self.where(stage=stage, pair=[repr(a), repr(b_)]))
+            r.add((JUNK, JUNK))
+            tags.append("immoralities=%d" % len(mi))
+        # several variables in one local_independencies call (list / tuple of variables)
+        if _strnames([self.nm(i) for i in self.nodes]) and len(self.nodes) >= 2 and not self.skip_local:
+            vs2 = rng.sample(self.nodes, rng.randint(2, min(4, len(self.nodes))))
+            arg = [self.nm(i) for i in vs2]
+            if rng.random() < 0.5:
+                arg = tuple(arg)
+            li = g.local_independencies(arg).get_assertions()
+            have = {(frozenset(self.ident(u) for u in a.event1), frozenset(self.ident(u) for u in a.event2),
+                     frozenset(self.ident(u) for u in a.event3)) for a in li}
+            exp = set()
+            for v in vs2:
+                ndp = self.drv.call("c08_misc", [self.nodes, self.E(), v, [v]])[4]
+                if ndp:
+                    exp.add((frozenset([v]), frozenset(ndp), frozenset(u for (u, w) in self.edges if w == v)))
+            if have != exp or len(li) != len(exp):
+                return bad("impl!=model:session-local_independencies-list",
+                           self.where(stage=stage, vs=vs2, impl=str(li), model=[list(map(sorted, t)) for t in exp]))
+            tags.append("local-independencies-list")
+        return None
+
+    def q_minsep(self, rng, stage, tags, npairs=4):
+        """minimal_dseparator on sampled pairs: adjacent -> ValueError; otherwise latent-free, separating, 1-minimal by
+        the model's proven d-connection; None only if the model (any order) also finds none; never None without latents"""
+        g = self.g
+        lat = self.lat()
+        eset = set(self.edges)
+        if len(self.nodes) < 2:
+            return None
+        pairs = [tuple(rng.sample(self.nodes, 2)) for _ in range(npairs)]
+        for x, y in pairs:
+            adjacent = (x, y) in eset or (y, x) in eset
+            try:
+                r = g.minimal_dseparator(self.nm(x), self.nm(y))
+                err = None
+            except ValueError:
+                r, err = None, "value"
+            st, mr = self.drv.call_e("c08_minsep", [self.nodes, self.E(), lat, x, y, []])
+            if adjacent:
+                if err != "value" or st != "err":
+                    return bad("impl!=model:session-minimal_dseparator-adjacent", self.where(stage=stage, x=x, y=y, impl_err=err))
+                continue
+            if err:
+                return bad("impl!=model:session-minimal_dseparator-raises", self.where(stage=stage, x=x, y=y))
+            if r is None:
+                if not lat:
+                    return bad("impl!=spec:session-minimal_dseparator-none-without-latents", self.where(stage=stage, x=x, y=y))
+                if mr != []:
+                    return bad("impl!=model:session-minimal_dseparator-none", self.where(stage=stage, x=x, y=y, model=mr))
+                continue
+            if not isinstance(r, set):
+                return bad("impl!=model:session-minimal_dseparator-type", self.where(stage=stage, impl=repr(r)))
+            sep = sorted(self.ident(u) for u in r)
+            if set(sep) & set(lat):
+                return bad("impl!=spec:session-minimal_dseparator-has-latent", self.where(stage=stage, x=x, y=y, sep=sep))
+            if y in self.atn(x, sep):
+                return bad("impl!=spec:session-minimal_dseparator-not-separating", self.where(stage=stage, x=x, y=y, sep=sep))
+            for u in sep:
+                if y not in self.atn(x, [w for w in sep if w != u]):
+                    return bad("impl!=spec:session-minimal_dseparator-not-minimal", self.where(stage=stage, x=x, y=y, sep=sep, drop=u))
+            if mr == []:
+                return bad("impl!=model:session-minimal_dseparator-model-none", self.where(stage=stage, x=x, y=y, sep=sep))
+            r.add(JUNK)
+        tags.append("minsep-pairs")
+        return None
+
+    def q_indep(self, rng, stage, tags):
+        g = self.g
+        lat = self.lat()
+        incl = rng.random() < 0.5
+        got = set()
+        for a in g.get_independencies(include_latents=incl).get_assertions():
+            got.add((frozenset(self.ident(u) for u in a.event1), frozenset(self.ident(u) for u in a.event2),
+                     frozenset(self.ident(u) for u in a.event3)))
+        exp = set()
+        vis = [v for v in self.nodes if incl or v not in lat]
+        for start in vis:
+            rest = [v for v in vis if v != start]
+            for r in range(len(rest)):
+                for Z in itertools.combinations(rest, r):
+                    sepd = set(self.drv.call("c08_dsep", [self.nodes, self.E(), lat, incl, start, list(Z)]))
+                    if sepd != set(rest) - set(Z) - self.atn(start, Z):
+                        return bad("model-inconsistent:dsep_vars", self.where(stage=stage, start=start, Z=list(Z)))
+                    if sepd:
+                        exp.add((frozenset([start]), frozenset(sepd), frozenset(Z)))
+        if got != exp:
+            d1 = [list(map(sorted, t)) for t in sorted(got - exp, key=str)[:3]]
+            d2 = [list(map(sorted, t)) for t in sorted(exp - got, key=str)[:3]]
+            return bad("impl!=model:session-get_independencies",
+                       self.where(stage=stage, impl_only=d1, model_only=d2, include_latents=incl))
+        tags.append("session-get_independencies")
+        return None
+
+    def q_round(self, rng, stage, tags, indep=None):
+        b = self.check_state(stage)
+        if b:
+            return b
+        if not self.nodes:
+            if self.g.active_trail_nodes([]) != {} or list(self.g.get_ancestral_graph([]).nodes()) or \
+                    list(self.g.moralize().nodes()):
+                return bad("impl!=model:empty-graph", self.where(stage=stage))
+            return None
+        cur = set(self.nodes)
+        Zs = [[v for v in Z if v in cur] for Z in self.fixed]
+        Zs.append(rng.sample(self.nodes, rng.randint(0, min(3, len(self.nodes)))))
+        if rng.random() < 0.3:
+            Zs.append([])
+        if rng.random() < 0.3 and Zs[0]:
+            Zs.append(Zs[0] + [Zs[0][0]])     # a duplicate in observed
+        for Z in Zs:
+            b = self.q_atn(rng, stage, Z, tags)
+            if b:
+                return b
+        # degenerate arguments
+        if self.g.active_trail_nodes([]) != {}:
+            return bad("impl!=model:empty-start-list", self.where(stage=stage))
+        for f in (self.q_rejected, self.q_anc, self.q_misc):
+            b = f(rng, stage, tags)
+            if b:
+                return b
+        if len(self.nodes) <= 8:
+            b = self.q_minsep(rng, stage, tags)
+            if b:
+                return b
+        if indep is None:
+            indep = len(self.nodes) <= 4
+        if indep and len(self.nodes) <= 5 and _strnames([self.nm(i) for i in self.nodes]):
+            b = self.q_indep(rng, stage, tags)
+            if b:
+                return b
+        return None
+
+
+def _fresh_names(style, names, rng, k):
+    """k names not used so far, in the style of the session"""
+    used = {repr(x) for x in names.values()}
+    out = []
+    i = 0
+    while len(out) < k:
+        i += 1
+        if style in ("str",):
+            c = "N%d" % i
+        elif style == "substr":
+            c = rng.choice(["x1", "x", "G"]) + str(rng.randint(0, 30))
+        elif style == "int":
+            c = 100 + i if rng.random() < 0.5 else -i
+        elif style == "tuple":
+            c = ("v", 100 + i)
+        else:
+            c = rng.choice(["m%d" % i, 200 + i, ("w", i)])
+        if repr(c) not in used:
+            used.add(repr(c))
+            out.append(c)
+    return out
+
+
+def _actual_latents(S, h):
+    """networkx's copy() of a plain DAG does not carry .latents (BayesianNetwork.copy does): for DAG copies the
+    latent set is read from the copy, and the answers must be consistent with it"""
+    return [S.ident(x) for x in h.latents if S.known(x)]
+
+
+def run_gsess(case, drv):
+    import networkx as nx
+    g, names, nodes = build(case)
+    rng = random.Random(case["qseed"])
+    S = Sess(case["cls"], g, dict(enumerate(names)), nodes, case["edges"], case["lat"], drv, case["style"])
+    n = case["n"]
+    tags = ["gsess cls=%s" % case["cls"], "gsess n=%d" % n, "style=" + case["style"], "route=" + case["route"]]
+    S.fixed = [sorted(rng.sample(range(n), rng.randint(1, min(3, n)))) for _ in range(rng.randint(2, 3))]
+    small = n <= 5 and _strnames(names)
+    b = S.q_round(rng, "initial", tags, indep=small and rng.random() < 0.5)
+    if b:
+        return b
+    nxt = [max(S.names) + 1]
+
+    def new_ids(k):
+        ids = list(range(nxt[0], nxt[0] + k))
+        nxt[0] += k
+        for i, nm in zip(ids, _fresh_names(case["style"], S.names, rng, k)):
+            S.learn(i, nm)
+        return ids
+
+    def target_edge():
+        """an edge whose removal changes the ancestors of a fixed observed set, if there is one"""
+        cur = set(S.nodes)
+        for Z in rng.sample(S.fixed, len(S.fixed)):
+            an = _reach(S.edges, [z for z in Z if z in cur], back=True)
+            cand = [e for e in S.edges if e[1] in an]
+            if cand:
+                return rng.choice(cand)
+        return rng.choice(S.edges)
+
+    def add_candidates():
+        es = set(S.edges)
+        return [(u, v) for u in S.nodes for v in S.nodes
+                if u != v and (u, v) not in es and (v, u) not in es and u not in _reach(S.edges, [v])]
+
+    OPS = ["remove_edge"] * 4 + ["remove_edges_from"] * 3 + ["remove_node"] * 2 + ["remove_nodes_from"] + ["do"] * 3 + \
+          ["do_copy", "add_node", "add_node_latent", "add_nodes_from", "add_edge", "add_edge", "add_edges_from", "reverse",
+           "swap", "swap", "clear_edges", "clear", "latents", "update", "add_weighted_edges_from", "add_path", "copy",
+           "rejected", "rejected"]
+    for rd in range(1, case["rounds"] + 1):
+        op = rng.choice(OPS)
+        if op in ("remove_edge", "remove_edges_from", "reverse", "swap") and not S.edges:
+            op = "add_edge"
+        if op in ("remove_node", "remove_nodes_from") and len(S.nodes) <= 3:
+            op = "add_nodes_from"
+        if op in ("add_edge", "add_edges_from", "add_weighted_edges_from") and not add_candidates():
+            op = "remove_edge" if S.edges else "add_node"
+        if op in ("clear", "clear_edges") and rng.random() < 0.5:
+            op = "do"
+        S.begin_edit()
+        stage = "round %d after %s" % (rd, op)
+        nm = S.nm
+        chk = None     # (model op, ns, es) or a list of them
+        if op == "remove_edge":
+            e = target_edge() if rng.random() < 0.7 else rng.choice(S.edges)
+            g.remove_edge(nm(e[0]), nm(e[1]))
+            S.edges.remove(e)
+            chk = [(0, [], [e])]
+            S.history.append([op, list(e)])
+        elif op == "remove_edges_from":
+            es = list({target_edge() for _ in range(rng.randint(1, 2))})
+            absent = [(u, v) for u in S.nodes for v in S.nodes if u != v and (u, v) not in S.edges][:1]
+            arg = [(nm(a), nm(c)) for a, c in es + absent] + [("__nope__", nm(S.nodes[0]))]
+            before = list(arg)
+            g.remove_edges_from(arg)
+            if arg != before:
+                return bad("mutated-argument:ebunch", S.where(stage=stage))
+            for e in es:
+                S.edges.remove(e)
+            chk = [(0, [], es + absent)]
+            S.history.append([op, [list(e) for e in es]])
+        elif op == "remove_node":
+            cur = set(S.nodes)
+            an = sorted(_reach(S.edges, [z for Z in S.fixed for z in Z if z in cur], back=True))
+            v = rng.choice(an) if an and rng.random() < 0.6 else rng.choice(S.nodes)
+            g.remove_node(nm(v))
+            S.nodes.remove(v)
+            S.edges[:] = [e for e in S.edges if v not in e]
+            if S.cls == "BN":
+                S.latset.discard(v)
+            chk = [(1, [v], [])]
+            S.history.append([op, v])
+        elif op == "remove_nodes_from":
+            vs = rng.sample(S.nodes, 2 if len(S.nodes) > 4 else 1)
+            arg = [nm(v) for v in vs] + ["__nope__"]
+            try:
+                g.remove_nodes_from(arg)
+                raised = False
+            except ValueError:
+                raised = True
+            if raised != (S.cls == "BN"):
+                return bad("impl!=model:remove_nodes_from-unknown-node", S.where(stage=stage, raised=raised))
+            for v in vs:
+                S.nodes.remove(v)
+                if S.cls == "BN":
+                    S.latset.discard(v)
+            S.edges[:] = [e for e in S.edges if e[0] not in vs and e[1] not in vs]
+            chk = [(1, vs, [])]
+            S.history.append([op, vs])
+        elif op in ("do", "do_copy"):
+            cur = set(S.nodes)
+            an = sorted(v for v in _reach(S.edges, [z for Z in S.fixed for z in Z if z in cur], back=True)
+                        if any(e[1] == v for e in S.edges))
+            vs = [rng.choice(an)] if an and rng.random() < 0.7 else rng.sample(S.nodes, rng.randint(1, 2))
+            single = len(vs) == 1 and isinstance(nm(vs[0]), (str, int)) and rng.random() < 0.5
+            arg = nm(vs[0]) if single else [nm(v) for v in vs]
+            before = S.snap(arg)
+            r = g.do(arg, inplace=(op == "do"))
+            if S.snap(arg) != before:
+                return bad("mutated-argument:do-nodes", S.where(stage=stage))
+            after = [e for e in S.edges if e[1] not in vs]
+            if op == "do":
+                if r is not g:
+                    return bad("impl!=model:do-inplace-returns-copy", S.where(stage=stage))
+                S.edges[:] = after
+                chk = [(2, vs, [])]
+            else:
+                if r is g:
+                    return bad("impl!=model:do-returns-self", S.where(stage=stage))
+                # the copy answers for the mutilated graph, the original for its own (checked below)
+                H = Sess(S.cls, r, S.names, S.nodes, after, S.lat() if S.cls == "BN" else _actual_latents(S, r), drv, S.style)
+                H.fixed, H.history = S.fixed, S.history + [["do_copy", vs]]
+                b = H.check_state(stage + " (copy)")
+                if b:
+                    return b
+                for Z in S.fixed:
+                    b = H.q_atn(rng, stage + " (copy)", [z for z in Z if z in set(S.nodes)], tags)
+                    if b:
+                        return b
+                r.add_edge(JUNK, nm(S.nodes[0]))
+                chk = []
+            S.history.append([op, vs])
+        elif op == "add_node":
+            (v,) = new_ids(1)
+            l_ = rng.random() < 0.3
+            g.add_node(nm(v), latent=l_) if rng.random() < 0.7 else g.add_node(nm(v), weight=0, latent=l_)
+            S.nodes.append(v)
+            if l_:
+                S.latset.add(v)
+            chk = [(3, [v], [])]
+            S.history.append([op, v, l_])
+        elif op == "add_node_latent":
+            v = rng.choice(S.nodes)
+            g.add_node(nm(v), latent=True)
+            S.latset.add(v)
+            chk = [(3, [v], [])]
+            S.history.append([op, v])
+        elif op == "add_nodes_from":
+            vs = new_ids(2) + [rng.choice(S.nodes)] if S.nodes else new_ids(2)
+            ls = [rng.random() < 0.3 for _ in vs]
+            arg = [nm(v) for v in vs]
+            larg = list(ls) if rng.random() < 0.7 else False
+            if larg is False:
+                ls = [False] * len(vs)
+            g.add_nodes_from(arg, latent=larg)
+            for v, l_ in zip(vs, ls):
+                if v not in S.nodes:
+                    S.nodes.append(v)
+                if l_:
+                    S.latset.add(v)
+            if larg is not False and larg != ls:
+                return bad("mutated-argument:latent-list", S.where(stage=stage))
+            chk = [(3, vs, [])]
+            S.history.append([op, vs, ls])
+        elif op in ("add_edge", "add_edges_from", "add_weighted_edges_from", "update", "add_path"):
+            cand = add_candidates()
+            rng.shuffle(cand)
+            es = []
+            for e in cand:
+                if len(es) >= (1 if op == "add_edge" else 2):
+                    break
+                if S.acyclic_with(es + [e]):
+                    es.append(e)
+            newn = []
+            if op in ("add_edges_from", "update", "add_path") and S.nodes:
+                (v,) = new_ids(1)
+                newn = [v]
+                es.append((rng.choice(S.nodes), v) if rng.random() < 0.5 else (v, rng.choice(S.nodes)))
+            if op == "add_path":
+                es = es[-1:]
+                (w,) = new_ids(1)
+                newn.append(w)
+                es.append((es[0][1], w) if es else (S.nodes[0], w))
+                if not S.acyclic_with(es) or es[0][1] != es[1][0]:
+                    es = es[:1]
+            if not es:
+                continue
+            pairs = [(nm(a), nm(c)) for a, c in es]
+            before = list(pairs)
+            if op == "add_edge":
+                w_ = rng.choice([None, 0, 0.5])
+                g.add_edge(pairs[0][0], pairs[0][1], weight=w_) if w_ is not None else g.add_edge(*pairs[0])
+            elif op == "add_edges_from":
+                g.add_edges_from(pairs)
+            elif op == "add_weighted_edges_from":
+                g.add_weighted_edges_from([(a, c, rng.choice([0, 1.5])) for a, c in pairs])
+            elif op == "update":
+                g.update(edges=pairs, nodes=[nm(v) for v in newn])
+            else:
+                path = [pairs[0][0], pairs[0][1]] + ([pairs[1][1]] if len(pairs) > 1 else [])
+                nx.add_path(g, path)
+            if pairs != before:
+                return bad("mutated-argument:ebunch", S.where(stage=stage))
+            for e in es:
+                for v in e:
+                    if v not in S.nodes:
+                        S.nodes.append(v)
+                S.edges.append(e)
+            chk = [(4, [], es)]
+            S.history.append([op, [list(e) for e in es]])
+        elif op in ("reverse", "swap"):
+            e = target_edge()
+            rest = [x for x in S.edges if x != e]
+            if op == "reverse":
+                cands = [(e[1], e[0])]
+            else:
+                es_ = set(rest)
+                cands = [(u, v) for u in S.nodes for v in S.nodes if u != v and (u, v) != e and (u, v) not in es_ and (v, u) not in es_]
+                rng.shuffle(cands)
+            f = None
+            for c in cands:
+                if c[0] not in _reach(rest, [c[1]]):
+                    f = c
+                    break
+            if f is None:
+                continue
+            g.remove_edge(nm(e[0]), nm(e[1]))
+            g.add_edge(nm(f[0]), nm(f[1]))
+            S.edges.remove(e)
+            S.edges.append(f)
+            chk = [(0, [], [e]), (4, [], [f])]
+            S.history.append([op, list(e), list(f)])
+        elif op == "clear_edges":
+            g.clear_edges()
+            S.edges[:] = []
+            chk = [(5, [], [])]
+            S.history.append([op])
+        elif op == "clear":
+            keep = list(S.nodes)
+            g.clear()
+            S.nodes[:] = []
+            S.edges[:] = []
+            S.touch()
+            b = S.model_edit(6, [], [], stage) or S.check_state(stage + " (cleared)")
+            if b:
+                return b
+            # the same object is filled again (same names): a fresh random DAG on the old nodes
+            order = list(keep)
+            rng.shuffle(order)
+            es = [(order[i], order[j]) for i in range(len(order)) for j in range(i + 1, len(order)) if rng.random() < 0.4]
+            S.begin_edit()
+            g.add_nodes_from([nm(v) for v in keep])
+            g.add_edges_from([(nm(a), nm(c)) for a, c in es])
+            S.nodes[:] = keep
+            S.edges[:] = es
+            chk = [(3, keep, []), (4, [], es)]
+            S.history.append([op, [list(e) for e in es]])
+        elif op == "latents":
+            v = rng.choice(S.nodes)
+            how = rng.choice(["add", "discard", "assign"])
+            if how == "add":
+                g.latents.add(nm(v))
+                S.latset.add(v)
+            elif how == "discard":
+                g.latents.discard(nm(v))
+                S.latset.discard(v)
+            else:
+                vs = rng.sample(S.nodes, rng.randint(0, min(2, len(S.nodes))))
+                g.latents = {nm(x) for x in vs}
+                S.latset = set(vs)
+            chk = []
+            S.history.append([op, how, v])
+        elif op == "copy":
+            # a copy is edited; the original must not notice (and the copy answers for its own edges)
+            h = g.copy()
+            if h is g:
+                return bad("impl!=model:copy-returns-self", S.where(stage=stage))
+            H = Sess(S.cls, h, S.names, S.nodes, S.edges, S.lat() if S.cls == "BN" else _actual_latents(S, h), drv, S.style)
+            H.fixed, H.history = S.fixed, S.history + [["copy"]]
+            if H.edges:
+                e = rng.choice(H.edges)
+                h.remove_edge(nm(e[0]), nm(e[1]))
+                H.edges.remove(e)
+                H.history.append(["remove_edge", list(e)])
+            b = H.check_state(stage + " (copy)")
+            if b:
+                return b
+            for Z in S.fixed:
+                b = H.q_atn(rng, stage + " (copy)", [z for z in Z if z in set(S.nodes)], tags)
+                if b:
+                    return b
+            chk = []
+            S.history.append([op])
+        elif op == "rejected":
+            # calls that must be refused; the state afterwards is what the model says
+            what = rng.choice(["cycle", "selfloop", "edges-then-cycle", "do-unknown", "remove-missing-edge", "remove-unknown-node"])
+            chk = []
+            try:
+                if what == "cycle" and S.cls == "BN" and S.edges:
+                    e = rng.choice(S.edges)
+                    g.add_edge(nm(e[1]), nm(e[0]))
+                elif what == "selfloop" and S.cls == "BN":
+                    g.add_edge(nm(S.nodes[0]), nm(S.nodes[0]))
+                elif what == "edges-then-cycle" and S.cls == "BN" and S.edges and add_candidates():
+                    f = rng.choice(add_candidates())
+                    e = rng.choice(S.edges)
+                    S.edges.append(f)
+                    chk = [(4, [], [f])]
+                    g.add_edges_from([(nm(f[0]), nm(f[1])), (nm(e[1]), nm(e[0]))])
+                elif what == "do-unknown":
+                    g.do([nm(rng.choice(S.nodes)), "__nope__"], inplace=True)
+                elif what == "remove-missing-edge":
+                    absent = [(u, v) for u in S.nodes for v in S.nodes if u != v and (u, v) not in S.edges]
+                    if not absent:
+                        continue
+                    u, v = rng.choice(absent)
+                    g.remove_edge(nm(u), nm(v))
+                elif what == "remove-unknown-node":
+                    g.remove_node("__nope__")
+                else:
+                    continue
+                return bad("impl!=model:invalid-edit-accepted", S.where(stage=stage, what=what))
+            except (ValueError, nx.NetworkXError):
+                pass
+            S.history.append([op, what])
+            tags.append("rejected-edit=" + what)
+        if chk is None:
+            continue
+        S.touch()
+        # the model's edit functions reproduce the tracked state
+        if chk:
+            pn, pe = S._prev
+            for (mop, ns, es) in chk:
+                pn, pe = drv.call("c08_edit", [pn, [list(e) for e in pe], mop, list(ns), [list(e) for e in es]])
+            if sorted(pn) != sorted(S.nodes) or sorted(map(tuple, pe)) != sorted(S.edges):
+                return bad("model-inconsistent:edit", S.where(stage=stage, model=[sorted(pn), sorted(map(tuple, pe))]))
+        tags.append("edit=" + op)
+        b = S.q_round(rng, stage, tags, indep=small and len(S.nodes) <= 5 and rng.random() < 0.4)
+        if b:
+            return b
+    return ok(nontrivial=len(S.history) > 0,
+              key=common.canon_key(["gsess", case["cls"], n, sorted(map(tuple, case["edges"])), sorted(case["lat"]),
+                                    case["style"], case["route"], case["qseed"]]), tags=sorted(set(tags)))
+
+
+def run_exhbn(case, drv):
+    """a BayesianNetwork object for every DAG on <= 4 nodes: the structural routes (own get_markov_blanket)"""
+    sub = dict(case, kind="exh", cls="BN")
+    g, names, nodes = build(sub)
+    S = Sess("BN", g, dict(enumerate(names)), nodes, case["edges"], [], drv, "exh")
+    rng = random.Random(len(case["edges"]) * 31 + case["n"])
+    tags = ["exhbn n=%d" % case["n"]]
+    for f in (S.q_anc, S.q_misc):
+        b = f(rng, "exhbn", tags)
+        if b:
+            return b
+    b = S.q_minsep(rng, "exhbn", tags, npairs=3)
+    if b:
+        return b
+    return ok(nontrivial=len(case["edges"]) > 0,
+              key=common.canon_key(["exhbn", case["n"], sorted(map(tuple, case["edges"]))]), tags=tags)
+
+
+# ====================================================================== DynamicBayesianNetwork objects
+class DSess(Sess):
+    """a DynamicBayesianNetwork: node id 2*var + slice <-> (name, slice); names are handed to pgmpy as tuples
+    or as DynamicNode objects (self.flip)"""
+
+    def __init__(self, g, varnames, nodes, edges, drv):
+        self.varnames = list(varnames)
+        names = {2 * i + t: (v, t) for i, v in enumerate(varnames) for t in (0, 1)}
+        Sess.__init__(self, "DBN", g, names, nodes, edges, [], drv, "dbn")
+        self.idx = {nm: i for i, nm in names.items()}
+        self.nope = ("__nope__", 0)
+        self.flip = False
+        self.regular = True
+        self.intra, self.inter = [], []      # (var, var) pairs, while the network is regular
+
+    def nm(self, i):
+        if self.flip:
+            from pgmpy.models.DynamicBayesianNetwork import DynamicNode
+            return DynamicNode(*self.names[i])
+        return self.names[i]
+
+    @staticmethod
+    def _t(x):
+        return (x[0], x[1])
+
+    def ident(self, x):
+        return self.idx[self._t(x)]
+
+    def known(self, x):
+        try:
+            return self._t(x) in self.idx
+        except (TypeError, IndexError, KeyError):
+            return False
+
+    def learn_var(self, v):
+        i = len(self.varnames)
+        self.varnames.append(v)
+        for t in (0, 1):
+            self.names[2 * i + t] = (v, t)
+            self.idx[(v, t)] = 2 * i + t
+        return i
+
+    def zobj(self, Z, form):
+        if form == "single":
+            return self.names[Z[0]]      # a single observed node is given as a (name, slice) tuple
+        return Sess.zobj(self, Z, form)
+
+    def forms_for(self, Z):
+        f = ["list", "tuple"] + (["set"] if len(set(Z)) != 2 else [])   # a set of exactly two observed nodes: see RULE
+        if len(Z) == 1:
+            f.append("single")
+        if not Z:
+            f.append("none")
+        return f
+
+    def blanket_check(self, v, blanket, stage):
+        """DynamicBayesianNetwork.get_markov_blanket AS CODED: the DAG blanket, and for a node of the last slice
+        the children of its previous-slice twin and those children's parents, all moved one slice on (nodes of
+        slice 2 appear in the answer).  While the network is regular this is the blanket of the node in the
+        network unrolled to three slices, PLUS the node itself whenever its twin has a child (as coded)."""
+        var, t = self.names[v]
+        cur = set(self.nodes)
+        max_ts = max(self.names[i][1] for i in cur)
+        exp = {self.names[u] for u in blanket}
+        tc = []
+        if t == max_ts:
+            if (var, t - 1) not in self.idx or self.idx[(var, t - 1)] not in cur:
+                return None     # the code looks the twin up in the graph: not a d-separation question
+            twin = self.idx[(var, t - 1)]
+            tc = [c for (p, c) in self.edges if p == twin]
+            for c in tc:
+                exp.add((self.names[c][0], self.names[c][1] + 1))
+                for (p, c2) in self.edges:
+                    if c2 == c:
+                        exp.add((self.names[p][0], self.names[p][1] + 1))
+        r = self.g.get_markov_blanket(self.nm(v))
+        got = [self._t(x) for x in r]
+        if set(got) != exp or got != sorted(got) or not isinstance(r, list):
+            return bad("impl!=model:dbn-markov_blanket", self.where(stage=stage, v=v, impl=got, model=sorted(exp)))
+        if self.regular and t == 1 and max_ts == 1:
+            k = len(self.varnames)
+            un = [3 * i + s_ for i in range(k) for s_ in range(3)]
+            ue = [[3 * a + s_, 3 * b_ + s_] for (a, b_) in self.intra for s_ in range(3)] + \
+                 [[3 * a + s_, 3 * b_ + s_ + 1] for (a, b_) in self.inter for s_ in range(2)]
+            spec = self.drv.call("c08_misc", [un, ue, 3 * self.varnames.index(var) + 1, []])[0]
+            spec = {(self.varnames[u // 3], u % 3) for u in spec}
+            if set(got) - {(var, 1)} != spec or ((var, 1) in got) != bool(tc):
+                return bad("impl!=spec:dbn-markov_blanket-unrolled",
+                           self.where(stage=stage, v=v, impl=got, spec=sorted(spec), intra=self.intra, inter=self.inter))
+        r.append(JUNK)
+        return None
+
+
+def run_dbn(case, drv):
+    import networkx as nx
+    from pgmpy.models import DynamicBayesianNetwork as DBN
+    rng = random.Random(case["qseed"])
+    k = case["nvars"]
+    varnames = rng.sample(["A", "B", "C", "D", "X1", "X10", "G", "G2"], k)
+    order = list(range(k))
+    rng.shuffle(order)
+    intra = [(order[i], order[j]) for i in range(k) for j in range(i + 1, k) if rng.random() < 0.45]
+    inter = [(a, b_) for a in range(k) for b_ in range(k) if rng.random() < (0.5 if a == b_ else 0.2)]
+    if not intra and not inter:
+        inter = [(0, 0)]
+    nodes, edges = [], []
+
+    def note_node(i):
+        if i not in nodes:
+            nodes.append(i)
+
+    def note_add(kind, a, b_):
+        """DynamicBayesianNetwork.add_edge as documented: an intra-slice edge is stored in both slices, an
+        inter-slice edge once (its head also gets a slice-0 node)"""
+        if kind == "intra":
+            for t in (0, 1):
+                note_node(2 * a + t)
+                note_node(2 * b_ + t)
+                if (2 * a + t, 2 * b_ + t) not in edges:
+                    edges.append((2 * a + t, 2 * b_ + t))
+        else:
+            note_node(2 * a)
+            note_node(2 * b_ + 1)
+            note_node(2 * b_)
+            if (2 * a, 2 * b_ + 1) not in edges:
+                edges.append((2 * a, 2 * b_ + 1))
+
+    def ebunch_of(kind, a, b_):
+        if kind == "intra":
+            t = rng.choice([0, 1])
+            return ((varnames[a], t), (varnames[b_], t))
+        t = rng.choice([0, 0, 1])       # (t, t+1) is normalised to (0, 1)
+        return ((varnames[a], t), (varnames[b_], t + 1))
+
+    plan = [("intra", a, b_) for a, b_ in intra] + [("inter", a, b_) for a, b_ in inter]
+    rng.shuffle(plan)
+    eb = [ebunch_of(*p_) for p_ in plan]
+    for p_ in plan:
+        note_add(*p_)
+    route = rng.choice(["ctor", "add_edges_from", "add_edge"])
+    before = list(eb)
+    if route == "ctor":
+        g = DBN(eb)
+    else:
+        g = DBN()
+        if route == "add_edges_from":
+            g.add_edges_from(eb)
+        else:
+            for e in eb:
+                g.add_edge(*e)
+    if eb != before:
+        return bad("mutated-argument:ebunch", {"route": route})
+    S = DSess(g, varnames, nodes, edges, drv)
+    S.intra, S.inter = list(intra), list(inter)
+    S.nodes, S.edges, S.varnames = nodes, edges, varnames        # shared with note_add / ebunch_of
+    tags = ["dbn vars=%d" % k, "dbn route=" + route]
+    S.fixed = [sorted(rng.sample(nodes, rng.randint(1, min(3, len(nodes))))) for _ in range(2)]
+    b = S.q_round(rng, "initial", tags)
+    if b:
+        return b
+    for rd in range(1, case["rounds"] + 1):
+        op = rng.choice(["add_intra", "add_inter", "add_var", "remove_edge", "remove_edge", "remove_edges_from",
+                         "remove_node", "do", "do", "rejected"])
+        S.flip = rng.random() < 0.4
+        stage = "round %d after %s" % (rd, op)
+        nm = S.nm
+        S.begin_edit()
+        if op in ("add_intra", "add_inter", "add_var"):
+            kk = len(S.varnames)
+            if op == "add_var":
+                a = S.learn_var("N%d" % rd)
+                b_ = rng.randrange(kk)
+                kind = rng.choice(["intra", "inter"])
+                if rng.random() < 0.5:
+                    a, b_ = b_, a
+            else:
+                kind = op[4:]
+                a, b_ = rng.randrange(kk), rng.randrange(kk)
+            if kind == "intra":
+                if a == b_ or (2 * a, 2 * b_) in S.edges or (2 * a + 1, 2 * b_ + 1) in S.edges:
+                    continue
+                trial = S.edges + [(2 * a, 2 * b_), (2 * a + 1, 2 * b_ + 1)]
+                if 2 * a in _reach(S.edges, [2 * b_]) or 2 * a + 1 in _reach(S.edges, [2 * b_ + 1]) or \
+                        2 * a + 1 in _reach(trial[:-1], [2 * b_ + 1]):
+                    continue
+            e = ebunch_of(kind, a, b_)
+            g.add_edge(*e)
+            note_add(kind, a, b_)
+            (S.intra if kind == "intra" else S.inter).append((a, b_))
+            S.history.append([op, kind, a, b_])
+        elif op in ("remove_edge", "remove_edges_from"):
+            if not S.edges:
+                continue
+            es = rng.sample(S.edges, 1 if op == "remove_edge" else min(2, len(S.edges)))
+            if op == "remove_edge":
+                g.remove_edge(nm(es[0][0]), nm(es[0][1]))
+            else:
+                g.remove_edges_from([(nm(a), nm(c)) for a, c in es])
+            for e in es:
+                S.edges.remove(e)
+            S.regular = False
+            S.history.append([op, [list(e) for e in es]])
+        elif op == "remove_node":
+            if len(S.nodes) <= 2:
+                continue
+            v = rng.choice(S.nodes)
+            g.remove_node(nm(v))
+            S.nodes.remove(v)
+            S.edges[:] = [e for e in S.edges if v not in e]
+            S.regular = False
+            S.history.append([op, v])
+        elif op == "do":
+            vs = rng.sample(S.nodes, 1)
+            r = g.do([nm(v) for v in vs], inplace=True)
+            if r is not g:
+                return bad("impl!=model:do-inplace-returns-copy", S.where(stage=stage))
+            S.edges[:] = [e for e in S.edges if e[1] not in vs]
+            S.regular = False
+            S.history.append([op, vs])
+        else:
+            what = rng.choice(["backward", "gap", "selfloop", "cycle"])
+            a, b_ = S.varnames[0], S.varnames[-1]
+            try:
+                if what == "backward":
+                    g.add_edge((a, 1), (b_, 0))
+                elif what == "gap":
+                    g.add_edge((a, 0), (b_, 2))
+                elif what == "selfloop":
+                    g.add_edge((a, 0), (a, 0))
+                else:
+                    back = [(p, c) for (p, c) in S.edges if S.names[p][1] == 0 and S.names[c][1] == 0]
+                    if not back:
+                        continue
+                    p, c = rng.choice(back)
+                    g.add_edge(S.names[c], S.names[p])
+                return bad("impl!=model:invalid-edit-accepted", S.where(stage=stage, what=what))
+            except (ValueError, NotImplementedError):
+                pass
+            S.history.append([op, what])
+            tags.append("rejected-edit=" + what)
+        S.touch()
+        tags.append("edit=" + op)
+        b = S.q_round(rng, stage, tags)
+        if b:
+            return b
+    return ok(nontrivial=True, key=common.canon_key(["dbn", k, case["qseed"]]), tags=sorted(set(tags)))
+
+
+# ====================================================================== NaiveBayes objects
+def run_nb(case, drv):
+    """NaiveBayes overrides active_trail_nodes (returns a SET, closed form) and local_independencies; compared with the
+    model on the star graph in the part of the domain where the overrides are defined (single-character names, start not
+    observed, >= 2 features for local_independencies); the other DAG routes it inherits unchanged (blanket, moral graph,
+    immoralities) go through the common code"""
+    from pgmpy.models import NaiveBayes
+    rng = random.Random(case["qseed"])
+    f = case["nfeat"]
+    letters = rng.sample("abcdefghijklmnopqrstuvwxyz", f + 3)
+    dep, feats, spare = letters[0], letters[1:f + 1], letters[f + 1:]
+    route = rng.choice(["ctor", "add_edges_from", "add_edge"])
+    if route == "ctor":
+        farg = list(feats)
+        g = NaiveBayes(feature_vars=farg, dependent_var=dep)
+        if farg != feats:
+            return bad("mutated-argument:feature_vars", {})
+    else:
+        g = NaiveBayes()
+        if route == "add_edges_from":
+            g.add_edges_from([(dep, x) for x in feats])
+        else:
+            for x in feats:
+                g.add_edge(dep, x)
+    names = {0: dep}
+    for i, x in enumerate(feats):
+        names[i + 1] = x
+    S = Sess("NB", g, names, list(names), [(0, i + 1) for i in range(f)], [], drv, "nb")
+    tags = ["nb features=%d" % f, "nb route=" + route]
+
+    def queries(stage):
+        S.skip_local = len(S.nodes) < 3
+        b = S.check_state(stage)
+        if b:
+            return b
+        for _ in range(8):
+            start = rng.choice(S.nodes)
+            rest = [v for v in S.nodes if v != start]
+            Z = rng.sample(rest, rng.randint(0, len(rest)))
+            form = rng.choice(S.forms_for(Z))
+            zo = S.zobj(Z, form)
+            before = S.snap(zo)
+            r = g.active_trail_nodes(S.nm(start), observed=zo)
+            got = {S.ident(x) for x in r} if all(S.known(x) for x in r) else None
+            if got != S.atn(start, Z) or not isinstance(r, set):
+                return bad("impl!=model:naivebayes-active_trail_nodes",
+                           S.where(stage=stage, start=start, Z=sorted(Z), form=form, impl=repr(r), model=sorted(S.atn(start, Z))))
+            if S.snap(zo) != before:
+                return bad("mutated-argument:observed", S.where(stage=stage, Z=sorted(Z), form=form))
+            r.add(JUNK)
+            r2 = g.active_trail_nodes(S.nm(start), observed=zo)
+            if r2 is r or JUNK in r2:
+                return bad("result-not-independent:naivebayes-active_trail_nodes", S.where(stage=stage))
+            tags.append("nb observed-as=" + form)
+        return S.q_misc(rng, stage, tags)
+
+    b = queries("initial")
+    if b:
+        return b
+    # a session: one more feature through add_edge, same questions again; an edge that is not allowed
+    for x in spare[:rng.randint(1, 2)]:
+        i = max(S.names) + 1
+        S.learn(i, x)
+        g.add_edge(dep, x)
+        S.nodes.append(i)
+        S.edges.append((0, i))
+        S.touch()
+        S.history.append(["add_edge", i])
+        b = queries("after add_edge")
+        if b:
+            return b
+    try:
+        g.add_edge(S.nm(1), spare[-1])
+        return bad("impl!=model:invalid-edit-accepted", S.where(what="edge from a feature"))
+    except ValueError:
+        pass
+    b = queries("after rejected add_edge")
+    if b:
+        return b
+    return ok(nontrivial=True, key=common.canon_key(["nb", f, case["qseed"]]), tags=sorted(set(tags)))
+
+
 def run_case(case, drv):
     if case["kind"] == "session":
         return run_session(case, drv)
@@ -524,4 +1832,12 @@ def run_case(case, drv):
         return run_exh(case, drv)
     if case["kind"] == "exhlat":
         return run_exhlat(case, drv)
+    if case["kind"] == "exhbn":
+        return run_exhbn(case, drv)
+    if case["kind"] == "gsess":
+        return run_gsess(case, drv)
+    if case["kind"] == "dbn":
+        return run_dbn(case, drv)
+    if case["kind"] == "nb":
+        return run_nb(case, drv)
     return run_rand(case, drv)
